@@ -22,7 +22,7 @@ type cholOp struct {
 	T     float64
 	Alpha float64 // |alpha| of SymRankOne, factor of Scale
 	W0    bool
-	Recv  int // 0: receiver == orig, 1: fresh zero value, 2: a valid factorization of another matrix
+	Recv  int // 0: receiver == orig, 1: fresh zero value, 2: a valid factorization of another matrix, 3: a factorization emptied by Reset
 	VKind int // representation of the vector argument
 	Seed  uint64
 }
@@ -48,7 +48,7 @@ func drawCholHist(t *rapid.T) cholHistCase {
 			Kind:  rapid.SampledFrom([]string{"up", "up", "down", "down", "down", "ext", "ext", "scale", "clone", "setfromu", "zero"}).Draw(t, "op"),
 			Alpha: rapid.SampledFrom([]float64{1, 1, 0.5, 2, 1e-3, 7.5}).Draw(t, "alpha"),
 			W0:    rapid.IntRange(0, 7).Draw(t, "w0") == 0,
-			Recv:  rapid.IntRange(0, 2).Draw(t, "recv"),
+			Recv:  rapid.IntRange(0, 3).Draw(t, "recv"),
 			VKind: rapid.IntRange(0, nVKinds-1).Draw(t, "vkind"),
 			Seed:  rapid.Uint64().Draw(t, "opseed"),
 		}
@@ -136,6 +136,12 @@ func checkCholHist(c cholHistCase) *vk.Failure {
 			recv = cur
 		case 1:
 			recv = &mat.Cholesky{}
+		case 3:
+			// emptied by Reset: "so that it can be reused as the receiver of a
+			// dimensionally restricted operation"
+			recv = &mat.Cholesky{}
+			recv.Clone(cur)
+			recv.Reset()
 		default:
 			recv = &mat.Cholesky{}
 			recv.Clone(cur)
@@ -269,8 +275,19 @@ func checkCholHist(c cholHistCase) *vk.Failure {
 			return failf("bad-case", "op %q", op.Kind)
 		}
 
-		ok := call()
 		desc := fmt.Sprintf("step %d/%d %s(T=%g alpha=%g recv=%d vec=%s) n=%d kappa=%.3g", step+1, len(c.Ops), what, op.T, op.Alpha, op.Recv, vKindNames[op.VKind%nVKinds], n, kappa)
+		var ok bool
+		if op.Recv == 3 {
+			if res := vk.Call(func() { ok = call() }); res.Outcome == vk.PackagePanic {
+				lt.add(failf("reset-receiver-panic", "%s: the operation panicked (%s) on a receiver emptied by Reset, which is documented to be reusable as the receiver of a dimensionally restricted operation", desc, res.Text))
+				recv = &mat.Cholesky{}
+				ok = call()
+			} else if res.Outcome != vk.Returned {
+				panic(res.Value)
+			}
+		} else {
+			ok = call()
+		}
 		switch expect {
 		case 1:
 			vk.Class("cholhist/expect=ok")
@@ -297,7 +314,7 @@ func checkCholHist(c cholHistCase) *vk.Failure {
 				if !sameM(cholU(cur), origU) {
 					return failf("failed-update-changed-receiver", "%s: returned false but the receiver (== orig) changed", desc)
 				}
-			case 1:
+			case 1, 3:
 				if !recv.IsEmpty() {
 					lt.add(failf("failed-update-changed-fresh-receiver", "%s: returned false but the previously empty receiver now holds a %d×%d factorization (documented: receiver left unchanged)", desc, recv.SymmetricDim(), recv.SymmetricDim()))
 				}
